@@ -11,6 +11,18 @@
 // text, cut off at the capacity (`e.*` fields, C11 oracle; compared by the plugin's judge when the
 // model says the arguments are inside the documented domain).
 //
+// Every operation line is executed TWICE, in lock-step: first on the arena objects, then on MIRROR objects `s`, `t`, `u`
+// holding the same state, each of which is the only occupant of a heap block of exactly sizeof( FixedString< N>) bytes
+// (`Exact`): AddressSanitizer's red zone starts at the first byte behind (and ends at the last byte before) the object,
+// so an over-READ of the object by a const operation (memcmp/memcpy/strchr/indexing reaching over `mLength` and out of
+// the object) aborts the run, which the guard bytes of the arena cannot notice (they only see writes, and behind the
+// arena object lies readable arena memory).  The two result lines (result, length, content, strlen, hash of all L+1
+// buffer bytes, well-formedness) must be identical: `!! mirror ...` otherwise.  Argument buffers are exact-size heap
+// blocks as well, freshly made for each of the two executions: C strings / pointer+count sources (`new char[ n + 1]`),
+// copy() destinations (exactly the number of characters std::string would copy, `exactBuf`), std::string arguments
+// (heap object; up to 15 characters libstdc++ keeps the text inside the object, the unused rest of that 16 byte buffer is
+// poisoned by hand, see `SBuf`), FixedString arguments (`t`, `u` of the mirror).
+//
 // Source arguments (`s:`/`c:` tokens) are hex, optionally in segments `<hex>+<hex pattern>x<count>` (decodeSrc).
 //
 // The file is compiled once per capacity (-DFS_PART=k), see tools/comp_fixedstring.py.
@@ -21,6 +33,15 @@
 #include <new>
 #include <sstream>
 #include "celma/common/fixed_string.hpp"
+
+#if defined(__SANITIZE_ADDRESS__)
+#include <sanitizer/asan_interface.h>
+#define FS_POISON(p, n) ASAN_POISON_MEMORY_REGION((p), (n))
+#define FS_UNPOISON(p, n) ASAN_UNPOISON_MEMORY_REGION((p), (n))
+#else
+#define FS_POISON(p, n) ((void)(p), (void)(n))
+#define FS_UNPOISON(p, n) ((void)(p), (void)(n))
+#endif
 
 using celma::common::FixedString;
 static const size_t NPOS = std::string::npos;
@@ -65,13 +86,16 @@ inline unsigned char pat(size_t i) { return static_cast<unsigned char>(0x80u | (
 
 template <class T> struct Arena {
    unsigned char* mem;
+   unsigned char* ref;      ///< the pattern of the left and of the right guard area (for the fast comparison)
    T* obj;
    Arena() {
       mem = new unsigned char[GUARD + sizeof(T) + GUARD];
+      ref = new unsigned char[2 * GUARD];
       for (size_t i = 0; i < GUARD + sizeof(T) + GUARD; ++i) mem[i] = pat(i);
+      for (size_t i = 0; i < GUARD; ++i) { ref[i] = pat(i); ref[GUARD + i] = pat(GUARD + sizeof(T) + i); }
       obj = new (mem + GUARD) T();
    }
-   ~Arena() { delete[] mem; }
+   ~Arena() { delete[] mem; delete[] ref; }
    Arena(const Arena&) = delete;
    /// re-creates the object by running `f(place)`
    template <class F> void rebuild(F f) {
@@ -80,6 +104,8 @@ template <class T> struct Arena {
    }
    /// returns "" or the description of the first damaged guard byte (and repairs the guards)
    std::string check(const char* name) {
+      // fast path: both guard areas still equal the pattern (memcmp against the pattern kept in `ref`)
+      if (std::memcmp(mem, ref, GUARD) == 0 && std::memcmp(mem + GUARD + sizeof(T), ref + GUARD, GUARD) == 0) return "";
       std::string r;
       for (size_t i = 0; i < GUARD; ++i)
          if (mem[i] != pat(i)) {
@@ -93,6 +119,57 @@ template <class T> struct Arena {
          }
       return r;
    }
+};
+
+/// the mirror: the object is the only occupant of a heap block of exactly sizeof( T) bytes, so that the sanitizer's red
+/// zones begin at the byte before and at the byte behind the object (ASan poisons the unused part of the last 8 byte
+/// granule too: "0 bytes to the right of 6-byte region" for a FixedString< 4>).  mLength is the last member and its
+/// alignment is the alignment of the class, so there is no tail padding: the last byte of mLength is the last byte of
+/// the block.  A fresh block for every re-construction.
+template <class T> struct Exact {
+   T* obj;
+   Exact() : obj(new (::operator new(sizeof(T))) T()) {}
+   ~Exact() { drop(); }
+   Exact(const Exact&) = delete;
+   void drop() { obj->~T(); ::operator delete(static_cast<void*>(obj)); obj = nullptr; }
+   template <class F> void rebuild(F f) {
+      void* fresh = ::operator new(sizeof(T));     // before the old one is released: a different address
+      T* n = f(fresh);
+      drop();
+      obj = n;
+   }
+};
+
+/// [p, p + n) is exactly a heap block (n = 0: p points behind a one byte block): any access outside is reported
+struct ExactBuf {
+   std::unique_ptr<char[]> mem;
+   char* p;
+   explicit ExactBuf(size_t n, int fill) : mem(new char[n ? n : 1]), p(mem.get() + (n ? 0 : 1)) { std::memset(mem.get(), fill, n ? n : 1); }
+};
+
+/// std::string argument on the heap.  More than 15 characters: libstdc++ allocates exactly size() + 1 bytes for a string
+/// constructed from a value (checked: capacity() == size()).  Up to 15 characters the text lives in the 16 byte buffer
+/// inside the object, where an over-read of up to 15 - size() bytes would stay inside the (32 byte) object: that rest is
+/// poisoned by hand for the life time of the argument (the buffer ends on an 8 byte boundary, so the partial granule can
+/// be expressed in the shadow memory).
+struct SBuf {
+   std::unique_ptr<std::string> str;
+   const char* pz = nullptr;
+   size_t nz = 0;
+   explicit SBuf(const std::string& v) : str(new std::string(v.data(), v.size())) {
+      const char* d = str->data();
+      const char* o = reinterpret_cast<const char*>(str.get());
+      if (d >= o && d < o + sizeof(std::string)) {      // short string: text inside the object
+         size_t room = static_cast<size_t>(o + sizeof(std::string) - d);
+         if (room > str->size() + 1 && (reinterpret_cast<uintptr_t>(d + room) & 7u) == 0) {
+            pz = d + str->size() + 1;
+            nz = room - str->size() - 1;
+            FS_POISON(pz, nz);
+         }
+      }
+   }
+   ~SBuf() { if (nz) FS_UNPOISON(pz, nz); }
+   SBuf(const SBuf&) = delete;
 };
 
 inline uint64_t fnv(const unsigned char* p, size_t n) {
@@ -173,15 +250,29 @@ template <size_t L, size_t SU = SU_DEFAULT> struct Box : public IBox {
    using FU = FixedString<SU>;
    using CI = typename FS::const_iterator;
    using IT = typename FS::iterator;
-   Arena<FS> as, at;
+   Arena<FS> as, at;       // the objects between guard bytes (write detection)
    Arena<FU> au;
-   FS*& s = as.obj;
-   FS*& t = at.obj;
-   FU*& u = au.obj;
+   Exact<FS> ms, mt;       // the mirror objects in exact-size heap blocks (read and write detection by ASan)
+   Exact<FU> mu;
+   bool mirror = false;    // which of the two worlds the operation currently runs on
+   FS* s = as.obj;
+   FS* t = at.obj;
+   FU* u = au.obj;
+
+   void world(bool m) {
+      mirror = m;
+      s = m ? ms.obj : as.obj;
+      t = m ? mt.obj : at.obj;
+      u = m ? mu.obj : au.obj;
+   }
+   /// re-creates `s` by running `f(place)` (constructor operations)
+   template <class F> void rebuildS(F f) {
+      if (mirror) { ms.rebuild(f); s = ms.obj; } else { as.rebuild(f); s = as.obj; }
+   }
 
    // per-operation scratch: exact-size heap copies of the source arguments
    std::vector<std::unique_ptr<char[]>> cbufs;
-   std::vector<std::unique_ptr<std::string>> sbufs;
+   std::vector<std::unique_ptr<SBuf>> sbufs;
    const std::vector<std::string>* A = nullptr;
 
    size_t curLen() const { return std::min(static_cast<size_t>(s->length()), L); }
@@ -226,10 +317,9 @@ template <size_t L, size_t SU = SU_DEFAULT> struct Box : public IBox {
    size_t PL(size_t i) const { return rawsrc(i, "c:").size(); }          ///< bytes before the added NUL
    std::string PS(size_t i) const { return std::string(rawsrc(i, "c:").c_str()); }   ///< as a C string
    std::string PR(size_t i) const { return rawsrc(i, "c:"); }
-   const std::string& SS(size_t i) {
-      sbufs.emplace_back(new std::string(rawsrc(i, "s:")));
-      sbufs.back()->shrink_to_fit();
-      return *sbufs.back();
+   std::string& SS(size_t i) {
+      sbufs.emplace_back(new SBuf(rawsrc(i, "s:")));
+      return *sbufs.back()->str;
    }
    template <class F> std::string withF(size_t i, F f) {
       if (A->at(i) == "t") return f(*t);
@@ -286,10 +376,13 @@ template <size_t L, size_t SU = SU_DEFAULT> struct Box : public IBox {
 
    std::string finish(const std::string& pre, const std::string& ar, const std::string& er, const std::string& eref,
                       bool withT) {
-      std::string bad = as.check("s");
-      if (bad.empty()) bad = at.check("t"); else at.check("t");
-      if (bad.empty()) bad = au.check("u"); else au.check("u");
-      if (!bad.empty()) bad = "guard " + bad;
+      std::string bad;
+      if (!mirror) {       // the mirror has no guard bytes: the sanitizer watches its surroundings
+         bad = as.check("s");
+         if (bad.empty()) bad = at.check("t"); else at.check("t");
+         if (bad.empty()) bad = au.check("u"); else au.check("u");
+         if (!bad.empty()) bad = "guard " + bad;
+      }
       if (bad.empty()) bad = wf(*s, L, "s");
       if (bad.empty()) bad = wf(*t, L, "t");
       if (bad.empty()) bad = wf(*u, SU, "u");
@@ -303,6 +396,7 @@ template <size_t L, size_t SU = SU_DEFAULT> struct Box : public IBox {
              " all=" + hex64(fnv(raw, L + 1));
       (void)len;
       if (withT) out += " " + state(*t, L, "t.");
+      if (mirror) return out;       // compared with the arena's line up to here; the std::string twin ran there
       std::string cut = eref.substr(0, std::min(eref.size(), L));
       out += " e.r=" + er + " e.len=" + std::to_string(cut.size()) + " e.buf=" + enc(cut);
       (void)pre;
@@ -316,6 +410,7 @@ template <size_t L, size_t SU = SU_DEFAULT> struct Box : public IBox {
       std::string ar, er;
       std::string err = vh::guarded([&] { ar = impl(); });
       if (!err.empty()) ar = "throw:" + err.substr(6);
+      if (mirror) return finish(pre, ar, "", "", withT);
       std::string ref = pre;
       std::string err2 = vh::guarded([&] { er = twin(ref); });
       if (!err2.empty()) { er = "throw:" + err2.substr(6); ref = pre; }
@@ -323,9 +418,25 @@ template <size_t L, size_t SU = SU_DEFAULT> struct Box : public IBox {
    }
 
    std::string exec(const std::vector<std::string>& a) override {
+      A = &a;
+      std::string r1 = execIn(false, a);
+      if (r1.compare(0, 6, "bad-op") == 0) return r1;
+      // the same line on the mirror objects, with argument buffers of its own
+      std::string r2 = execIn(true, a);
       cbufs.clear();
       sbufs.clear();
-      A = &a;
+      world(false);
+      if (r1.compare(0, 2, "!!") == 0) return r1;      // the arena's own oracle failed: report that
+      size_t cut = r1.find(" e.r=");
+      if (r1.compare(0, cut, r2) != 0)
+         return "!! mirror (object in an exact-size heap block) differs: [" + r2 + "] ; " + r1;
+      return r1;
+   }
+
+   std::string execIn(bool m, const std::vector<std::string>& a) {
+      cbufs.clear();
+      sbufs.clear();
+      world(m);
       try {
          return dispatch(a);
       } catch (const BadOp&) {
@@ -350,17 +461,17 @@ template <size_t L, size_t SU = SU_DEFAULT> struct Box : public IBox {
 
       // ----- constructors -------------------------------------------------------------------
       OP("ctor_p", 1) { const char* p = P(1); std::string ps = PS(1);
-         return run(IMPL { as.rebuild([&](void* m) { return new (m) FS(p); }); RET_; }, TWIN { ref = ps; RET_; }); }
+         return run(IMPL { rebuildS([&](void* m) { return new (m) FS(p); }); RET_; }, TWIN { ref = ps; RET_; }); }
       OP("ctor_s", 1) { const std::string& x = SS(1);
-         return run(IMPL { as.rebuild([&](void* m) { return new (m) FS(x); }); RET_; }, TWIN { ref = x; RET_; }); }
+         return run(IMPL { rebuildS([&](void* m) { return new (m) FS(x); }); RET_; }, TWIN { ref = x; RET_; }); }
       OP("ctor_f", 1) {
          if (a[1] == "t") { FS cp(*t);   // the arena is rebuilt, so copy first
-            return run(IMPL { as.rebuild([&](void* m) { return new (m) FS(cp); }); RET_; }, TWIN { ref = cp.str(); RET_; }); }
-         return run(IMPL { as.rebuild([&](void* m) { return new (m) FS(*u); }); RET_; }, TWIN { ref = u->str(); RET_; }); }
+            return run(IMPL { rebuildS([&](void* m) { return new (m) FS(cp); }); RET_; }, TWIN { ref = cp.str(); RET_; }); }
+         return run(IMPL { rebuildS([&](void* m) { return new (m) FS(*u); }); RET_; }, TWIN { ref = u->str(); RET_; }); }
       OP("ctor_move", 1) { T(1);
-         return run(IMPL { as.rebuild([&](void* m) { return new (m) FS(std::move(*t)); }); RET_; }, TWIN { ref = t->str(); RET_; }); }
+         return run(IMPL { rebuildS([&](void* m) { return new (m) FS(std::move(*t)); }); RET_; }, TWIN { ref = t->str(); RET_; }); }
       OP("ctor_def", 0) {
-         return run(IMPL { as.rebuild([&](void* m) { return new (m) FS(); }); RET_; }, TWIN { ref.clear(); RET_; }); }
+         return run(IMPL { rebuildS([&](void* m) { return new (m) FS(); }); RET_; }, TWIN { ref.clear(); RET_; }); }
 
       // ----- assignment ---------------------------------------------------------------------
       OP("assign_p", 1) { const char* p = P(1); std::string ps = PS(1);
@@ -602,7 +713,7 @@ template <size_t L, size_t SU = SU_DEFAULT> struct Box : public IBox {
                     TWIN { if (i > j) throw std::out_of_range("range");
                            ref.replace(ref.begin() + i, ref.begin() + j, ts.begin() + x, ts.begin() + y); RET_; }); }
       OP("rep_itit_sit", 5) { CI f = ci(1), l = ci(2); size_t i = ip(1), j = ip(2); size_t x = N(4), y = N(5);
-         sbufs.emplace_back(new std::string(rawsrc(3, "s:"))); std::string& src = *sbufs.back();
+         std::string& src = SS(3);
          if (x > y || y > src.size()) throw BadOp();
          return run(IMPL { s->replace(f, l, src.begin() + x, src.begin() + y); RET_; },
                     TWIN { if (i > j) throw std::out_of_range("range");
@@ -634,14 +745,13 @@ template <size_t L, size_t SU = SU_DEFAULT> struct Box : public IBox {
          return run(IMPL { return enc(s->substr(p)); }, TWIN { return enc(ref.substr(p)); }); }
       OP("copy", 2) { size_t c = N(1), p = N(2);
          size_t room = (p < curLen()) ? std::min(c, curLen() - p) : 0;
-         auto mk = [&] { std::unique_ptr<char[]> d(new char[room ? room : 1]); std::memset(d.get(), 0x7e, room ? room : 1); return d; };
-         return run(IMPL { auto d = mk(); size_t n = s->copy(d.get(), c, p); return rn(n) + ":" + enc(std::string(d.get(), std::min(n, room))); },
-                    TWIN { auto d = mk(); size_t n = ref.copy(d.get(), c, p); return rn(n) + ":" + enc(std::string(d.get(), std::min(n, room))); }); }
+         // destination: a heap block of exactly the `room` bytes std::string copies (room = 0: a pointer behind a block)
+         return run(IMPL { ExactBuf d(room, 0x7e); size_t n = s->copy(d.p, c, p); return rn(n) + ":" + enc(std::string(d.p, std::min(n, room))); },
+                    TWIN { ExactBuf d(room, 0x7e); size_t n = ref.copy(d.p, c, p); return rn(n) + ":" + enc(std::string(d.p, std::min(n, room))); }); }
       OP("copy_c", 1) { size_t c = N(1);
          size_t room = std::min(c, curLen());
-         auto mk = [&] { std::unique_ptr<char[]> d(new char[room ? room : 1]); std::memset(d.get(), 0x7e, room ? room : 1); return d; };
-         return run(IMPL { auto d = mk(); size_t n = s->copy(d.get(), c); return rn(n) + ":" + enc(std::string(d.get(), std::min(n, room))); },
-                    TWIN { auto d = mk(); size_t n = ref.copy(d.get(), c); return rn(n) + ":" + enc(std::string(d.get(), std::min(n, room))); }); }
+         return run(IMPL { ExactBuf d(room, 0x7e); size_t n = s->copy(d.p, c); return rn(n) + ":" + enc(std::string(d.p, std::min(n, room))); },
+                    TWIN { ExactBuf d(room, 0x7e); size_t n = ref.copy(d.p, c); return rn(n) + ":" + enc(std::string(d.p, std::min(n, room))); }); }
       OP("swap", 1) { T(1); std::string tpre = t->str();
          return run(IMPL { s->swap(*t); RET_; }, TWIN { ref = tpre; RET_; }, true); }
 
